@@ -241,7 +241,7 @@ fn gen_subpacket_area(rng: &mut ChaCha8Rng, i: u64, max_total: usize, canonical:
     let n = [0usize, 1, 2, 5, 12][(i % 5) as usize];
     for j in 0..n {
         let critical = rng.gen_bool(0.15);
-        let choice = rng.gen_range(0..22);
+        let choice = rng.gen_range(0..28);
         let (typ, body): (u8, Vec<u8>) = match choice {
             0 => (2, rnd_bytes(rng, 4)),
             1 => (3, rnd_bytes(rng, 4)),
@@ -292,6 +292,27 @@ fn gen_subpacket_area(rng: &mut ChaCha8Rng, i: u64, max_total: usize, canonical:
                 let n = rng.gen_range(0..30);
                 (rng.gen_range(40..100), rnd_bytes(rng, n)) // unknown types
             }
+            // issuer / intended recipient fingerprints naming keys of every version that has a fingerprint
+            // format (4: 20 octets, 5 and 6: 32 octets)
+            22 | 23 | 24 => {
+                let v = [4u8, 5, 6][rng.gen_range(0..3)];
+                let mut b = vec![v];
+                b.extend(rnd_bytes(rng, if v == 4 { 20 } else { 32 }));
+                ([33u8, 35, 35][choice - 22], b)
+            }
+            25 => {
+                // revocation key: class, algorithm, v4 fingerprint
+                let mut b = vec![[0x80u8, 0xC0][rng.gen_range(0..2)], [1u8, 17, 19, 22][rng.gen_range(0..4)]];
+                b.extend(rnd_bytes(rng, 20));
+                (12, b)
+            }
+            26 => {
+                // signature target: public-key algorithm, hash algorithm, digest
+                let mut b = vec![[1u8, 17, 22][rng.gen_range(0..3)], 8];
+                b.extend(rnd_bytes(rng, 32));
+                (31, b)
+            }
+            27 => (34, (0..rng.gen_range(0..4)).flat_map(|_| [[7u8, 8, 9][rng.gen_range(0..3)], [1u8, 2, 3][rng.gen_range(0..3)]]).collect()),
             _ => {
                 let n = rng.gen_range(0..30);
                 (rng.gen_range(100..111), rnd_bytes(rng, n)) // private
